@@ -152,6 +152,13 @@ func (prom *Prometheus) RangeQuery(ctx context.Context, expr string, params Rang
 			if verifhook.Enabled {
 				verifhook.At("promapi.slice", prom.name+"|"+prom.safeURI+"|"+expr+"|"+formatTime(s.Start)+"|"+formatTime(s.End))
 			}
+			// Range queries for the same expression but different time ranges
+			// are split into partially identical slices, make sure only one of
+			// each is in flight, so the other one can be served from cache.
+			sliceKey := fmt.Sprintf("slice:%s/%s/%s/%s/%s", APIPathQueryRange, expr, formatTime(s.Start), formatTime(s.End), step)
+			prom.locker.lock(sliceKey)
+			defer prom.locker.unlock(sliceKey)
+
 			var result queryResult
 			query.result = make(chan queryResult)
 			prom.queries <- query
